@@ -212,6 +212,7 @@ class Inliner:
                 continue
             b = self.bodies[tk]
             bi = 0
+            here = False
             while bi < len(b["blocks"]):
                 blk = b["blocks"][bi]
                 t = blk["term"]
@@ -282,7 +283,13 @@ class Inliner:
                             self._thread(b, rs, ret_local=loff)
                         self.prune_unreachable(b)
                     n += 1
+                    here = True
                 bi += 1
+            if here:
+                # a function item handed to the helper and called through its `fn(..)` parameter is, at the call site,
+                # a call of that function (rules/x_devirt.py: single-definition constant function pointers only)
+                from . import x_devirt
+                x_devirt.devirtualize(b)
         return n
 
     # ---- jump threading after an inlined return ------------------------------------------------------
@@ -509,6 +516,12 @@ class Inliner:
         for k in [b["key"] for b in self.j["bodies"] if b["kind"] == "fn"]:
             if k in self.bodies and k not in helpers:
                 sites += self.inline_into(k, helpers)
+        # closures that live in a constant or static item (the operator tables' `|items| adapter(js_op::f, items)`) call
+        # helpers too; the item's own initialiser is left alone
+        for k in [b["key"] for b in self.j["bodies"] if b["kind"] not in ("fn", "closure", "promoted")]:
+            pre = k + "::{closure#"
+            for ck in sorted(c for c, cb in self.bodies.items() if cb["kind"] == "closure" and c.startswith(pre) and "::{closure#" not in c[len(pre):]):
+                sites += self.inline_into(ck, helpers)
         # helpers inside helpers were handled recursively; now drop helpers that nothing refers to any more
         still = set()
 
